@@ -359,7 +359,9 @@ def int_to_f64(x, ty='i64'):
     bits, signed = INT_TYPES[ty]
     if is_conc_int(x): return z3.simplify(z3.fpToFP(RNE, z3.RealVal(x), F64))
     if is_bv(x): return z3.fpSignedToFP(RNE, x, F64) if signed else z3.fpUnsignedToFP(RNE, x, F64)
-    return z3.fpToFP(RNE, z3.ToReal(x), F64)
+    # Int-theory integers: the conversion is kept abstract (uninterpreted i2f : Int -> Float64).  This over-approximates
+    # (more paths are feasible), which is sound for proofs; every counterexample is recomputed exactly at replay.
+    return uf('uf_i2f', z3.IntSort(), F64)(x)
 
 
 def f64_to_int(v, ty, want_bv=None):
